@@ -10,7 +10,7 @@ from ..world import get_world
 
 MAGS = [
     -500, -273.15, -40, 0, 0.01, 32, 100, 273.15, 1e4, 1, -1, 2.5,
-    Decimal("36.6"), Decimal("-459.67"), Decimal("0"),
+    Decimal("36.6"), Decimal("-459.67"), Decimal("0"), Decimal("100"), 32.0,
 ]
 SCALES = ["K", "C", "F", "R"]
 C0 = Fraction("273.15")
@@ -95,8 +95,11 @@ def _chunk(args):
         pv, qv = pval(p), pval(q)
         label = f"{pname(p)}{src}->{pname(q)}{dst}"
         convs = {}
+        # one restored state per (pair, prefixes): the magnitudes follow each other, equal values
+        # of different numeric types included (0, Decimal("0")), so a memo that survives
+        # between calls is exercised
+        w.restore()
         for m in MAGS:
-            w.restore()
             n += 1
             x = frac(m) * pv  # value on the unprefixed source scale
             expected = from_kelvin(dst, to_kelvin(src, x)) / qv
@@ -241,6 +244,12 @@ def replay(obj, kind=None):
     m = eval(obj["m"], {"Decimal": Decimal})
     pv, qv = pval(p), pval(q)
     if obj["what"] in ("value", "roundtrip"):
+        # re-run the whole magnitude sequence of the pair the way the check does
+        names = [pname(x) for x in prefixes(w, True)]
+        r = _chunk((True, [(obj["src"], obj["dst"], names.index(obj["p"]), names.index(obj["q"]))]))
+        hits = [v for v in r[2] if v[3].get("m") == obj["m"] and (kind is None or v[0] == kind)]
+        if hits:
+            return True, hits[0][2]
         try:
             r = (m * su).in_unit(du)
         except Exception as e:  # noqa
